@@ -94,6 +94,14 @@ def _run_one(args):
     return src, out, p.returncode, p.stderr, time.time() - t0
 
 
+def _load_doc(path):
+    """Explicit specialisations print their class as written (Writer<std::string>) while qualified names are
+    canonical (Writer<std::basic_string<char>>): normalise to the canonical spelling."""
+    txt = open(path).read()
+    txt = txt.replace("Writer<std::string>", "Writer<std::basic_string<char>>")
+    return json.loads(txt)
+
+
 class Facts:
     def __init__(self):
         self.functions = {}   # key -> fn
@@ -161,7 +169,7 @@ def load(repo=None, extra_tus=None, extra_roots=None, use_cache=True, only_tus=N
     docs = []
     if use_cache and os.environ.get("VERIF_NO_CACHE") != "1" and os.path.exists(os.path.join(cache_dir, "DONE")):
         for f in sorted(glob.glob(os.path.join(cache_dir, "*.json"))):
-            docs.append(json.load(open(f)))
+            docs.append(_load_doc(f))
         facts.cache_hit = True
     else:
         tmp = tempfile.mkdtemp(prefix="facts-", dir=os.path.join(VERIF, "build"))
@@ -175,7 +183,7 @@ def load(repo=None, extra_tus=None, extra_roots=None, use_cache=True, only_tus=N
             for src, out, rc, err, dt in res:
                 if rc != 0 or not os.path.exists(out):
                     raise AnalysisBroken("extract", "extractor failed on %s (rc=%s): %s" % (src, rc, err.strip()[-600:]))
-                d = json.load(open(out))
+                d = _load_doc(out)
                 if d.get("errors"):
                     raise AnalysisBroken("extract", "translation unit %s does not compile: %s" % (src, err.strip()[-600:]))
                 docs.append(d)
@@ -205,6 +213,11 @@ def load(repo=None, extra_tus=None, extra_roots=None, use_cache=True, only_tus=N
                 facts.fn_tu[f["key"]] = d["tu"]
         for r in d["records"]:
             facts.records.setdefault(r["qn"], r)
+            # explicit specialisations keep the spelling of their declaration (Writer<std::string>); functions name
+            # the same class canonically (Writer<std::basic_string<char>>): register both spellings
+            alt = r["qn"].replace("std::string", "std::basic_string<char>")
+            if alt != r["qn"]:
+                facts.records.setdefault(alt, r)
         for e in d["enums"]:
             facts.enums.setdefault(e["qn"], e)
         seenv = set((v["qn"], v["file"], v["line"]) for v in facts.vars)
